@@ -3,15 +3,13 @@
 //! While a decode is being monitored on the current thread (`begin` .. `end`) every request is
 //! recorded: largest single request, live bytes, peak live bytes, number of requests.
 //! A monitored request above `CEILING` is *not served and not answered with null* (null makes
-//! `handle_alloc_error` abort the whole process, which is what a production node would suffer):
-//! the request is recorded in a process-wide slot, the waiting supervisor is woken and the
-//! requesting thread is parked for ever. The supervisor (exec.rs) reports the case as
-//! `runaway-allocation` and continues the batch on a fresh thread. Nothing here reads a clock
-//! or depends on thread timing: the parked state is reached or not as a pure function of the
-//! decoder's input.
+//! `handle_alloc_error` abort the process, which is what a production node would suffer):
+//! decodes run in a forked child (exec.rs); the allocator writes a `R <bytes>` record to the
+//! supervising parent and `_exit`s the child. The parent reports the case as
+//! `runaway-allocation` and forks again for the remaining cases. Nothing here reads a clock or
+//! depends on timing: the record is written or not as a pure function of the decoder's input.
 use std::alloc::{GlobalAlloc, Layout, System};
 use std::cell::Cell;
-use std::sync::{Condvar, Mutex};
 
 /// Hard ceiling for one monitored request. Above it a real process is considered lost
 /// (abort through `handle_alloc_error`, or the OOM killer once the memory is touched).
@@ -25,16 +23,12 @@ thread_local! {
     static COUNT: Cell<u64> = const { Cell::new(0) };
 }
 
-#[derive(Default)]
-pub struct Supervision {
-    /// the monitored thread finished its batch
-    pub finished: bool,
-    /// the monitored thread asked for this many bytes (> CEILING) and is parked for ever
-    pub parked: Option<usize>,
-}
+/// write end of the pipe to the supervising parent (set in the forked decode child)
+pub static CHILD_FD: std::sync::atomic::AtomicI32 = std::sync::atomic::AtomicI32::new(-1);
 
-pub static SUPERVISION: Mutex<Supervision> = Mutex::new(Supervision { finished: false, parked: None });
-pub static SUPERVISION_CV: Condvar = Condvar::new();
+/// `WIRE_SIM_SERVE_ALL=1` (replay only): hand every request to the system allocator, to show
+/// what an unmonitored process does with the same input (abort in `handle_alloc_error`).
+pub static SERVE_ALL: std::sync::atomic::AtomicBool = std::sync::atomic::AtomicBool::new(false);
 
 pub struct Counting;
 
@@ -51,7 +45,7 @@ fn note(size: usize) -> bool {
         }
     });
     let _ = COUNT.try_with(|c| c.set(c.get() + 1));
-    size <= CEILING
+    size <= CEILING || SERVE_ALL.load(std::sync::atomic::Ordering::Relaxed)
 }
 
 #[inline]
@@ -71,18 +65,42 @@ fn live(delta: isize) {
     });
 }
 
+/// A monitored request above the ceiling: tell the parent and leave. Runs inside the
+/// allocator, so it must not allocate: the record is formatted into a stack buffer.
 #[cold]
 fn park_for_ever(size: usize) -> ! {
-    // stop monitoring on this thread first: nothing below may be attributed to the decoder
     let _ = ON.try_with(|c| c.set(false));
-    {
-        let mut g = SUPERVISION.lock().unwrap_or_else(|e| e.into_inner());
-        g.parked = Some(size);
-        SUPERVISION_CV.notify_all();
-    }
+    let mut buf = [0u8; 32];
+    let mut n = buf.len();
+    n -= 1;
+    buf[n] = b'\n';
+    let mut v = size;
     loop {
-        std::thread::sleep(std::time::Duration::from_secs(1 << 20));
+        n -= 1;
+        buf[n] = b'0' + (v % 10) as u8;
+        v /= 10;
+        if v == 0 {
+            break;
+        }
     }
+    n -= 1;
+    buf[n] = b'\t';
+    n -= 1;
+    buf[n] = b'R';
+    let fd = CHILD_FD.load(std::sync::atomic::Ordering::SeqCst);
+    if fd >= 0 {
+        let mut data = &buf[n..];
+        while !data.is_empty() {
+            let w = unsafe { libc::write(fd, data.as_ptr() as *const libc::c_void, data.len()) };
+            if w <= 0 {
+                break;
+            }
+            data = &data[w as usize..];
+        }
+        unsafe { libc::_exit(0) }
+    }
+    // not in a decode child (cannot happen: monitoring is only switched on there)
+    unsafe { libc::abort() }
 }
 
 unsafe impl GlobalAlloc for Counting {
